@@ -240,9 +240,12 @@ Builtin(f, vs) ==
     [] f = <<102,105,110,100,95,108,97,115,116>>  -> Find(vs, FALSE)
     [] f = <<102,114,111,109,95,105,116,101,109,115>> ->
          IF ~T(vs[1], {"arr"}) THEN TErr
-         \* the standard asks for an error on malformed pairs; which category
-         \* (type or value) follows the package: value
-         ELSE IF ~FromItemsOk(vs[1].a) THEN ErrS({"invalid-value", "invalid-type"})
+         \* an element that is not an array is a type fault; a malformed pair
+         \* (wrong length, key not a string) is a value fault (property C02)
+         ELSE IF ~FromItemsOk(vs[1].a)
+              THEN ErrS((IF \E i \in 1..Len(vs[1].a) : vs[1].a[i].t # "arr" THEN {"invalid-type"} ELSE {})
+                        \cup (IF \E i \in 1..Len(vs[1].a) : vs[1].a[i].t = "arr" /\ (Len(vs[1].a[i].a) # 2 \/ vs[1].a[i].a[1].t # "str")
+                              THEN {"invalid-value"} ELSE {}))
          ELSE IF vs[1].u /\ Len(vs[1].a) > 1 THEN Open
          ELSE IF \E i, j \in 1..Len(vs[1].a) : i < j /\ vs[1].a[i].a[1] = vs[1].a[j].a[1] THEN Open  \* duplicate keys: open
          ELSE Obj([i \in 1..Len(vs[1].a) |-> Mem(vs[1].a[i].a[1].s, vs[1].a[i].a[2])])
